@@ -34,7 +34,9 @@ func Get(f *ast.File, p string) (*yaml.Path, ast.Node, bool, error) {
 
 	node, err := path.FilterFile(f)
 	if err != nil {
-		if errors.Is(err, yaml.ErrNotFoundNode) {
+		// ErrInvalidQuery is returned when the path goes through a node of another type,
+		// e.g. `$.a.b` where `a` is a scalar, then the path doesn't exist in this document
+		if errors.Is(err, yaml.ErrNotFoundNode) || errors.Is(err, yaml.ErrInvalidQuery) {
 			return path, nil, false, nil
 		}
 
